@@ -85,6 +85,8 @@ class Expr:
     def __truediv__(self, other):
         if isinstance(other, (int, Fraction)):
             other = Const(other)
+        if self.is_const() and other.is_const() and other.val != 0:
+            return Const(Fraction(self.val) / Fraction(other.val))
         return Op("/", self, other)
 
     def __rtruediv__(self, other):
